@@ -29,17 +29,19 @@ Record gs := {
   g_res : Z;              (* sum of Retries resource deltas *)
   g_res_min : Z;          (* minimum over prefixes of that sum *)
   g_panic : bool;
+  g_leak : bool;          (* a new attempt was started while the previous attempt's upstream stream was still open *)
+  g_fin_bad : bool;       (* an attempt was sent request headers on which the route actions had not run exactly once *)
   g_reply_kind : option (rkind * Z)  (* kind and status of the reply header *)
 }.
 
 #[export] Instance eta_gs : Settable _ := settable! Build_gs
   <g_hdr; g_started; g_ended; g_bad; g_clean; g_log; g_destroy; g_new; g_choose; g_new_unchosen; g_fresh; g_new_after_start;
-   g_denied; g_new_after_deny; g_term; g_gauge; g_res; g_res_min; g_panic; g_reply_kind>.
+   g_denied; g_new_after_deny; g_term; g_gauge; g_res; g_res_min; g_panic; g_leak; g_fin_bad; g_reply_kind>.
 
 Definition gs0 : gs :=
   {| g_hdr := 0; g_started := false; g_ended := false; g_bad := false; g_clean := 0; g_log := 0; g_destroy := 0; g_new := 0;
      g_choose := 0; g_new_unchosen := false; g_fresh := false; g_new_after_start := false; g_denied := false;
-     g_new_after_deny := false; g_term := false; g_gauge := 0; g_res := 0; g_res_min := 0; g_panic := false; g_reply_kind := None |}.
+     g_new_after_deny := false; g_term := false; g_gauge := 0; g_res := 0; g_res_min := 0; g_panic := false; g_leak := false; g_fin_bad := false; g_reply_kind := None |}.
 
 Definition is_deny (v : verdict) : bool :=
   match v with VTerm | VHijack | VHijackCont | VDirect => true | _ => false end.
@@ -57,7 +59,9 @@ Definition gs_out (g : gs) (o : out) : gs :=
   | OUpNew _ _ =>
     g <| g_new := S (g_new g) |> <| g_new_unchosen := g_new_unchosen g || negb (g_fresh g) |> <| g_fresh := false |>
       <| g_new_after_start := g_new_after_start g || g_started g |> <| g_new_after_deny := g_new_after_deny g || g_denied g |>
-  | OUpHdr _ _ | OUpData _ _ | OUpTrl _ | OUpReset _ => g
+  | OUpHdr _ _ n => g <| g_fin_bad := g_fin_bad g || negb (n =? 1)%nat |>
+  | OLeak _ => g <| g_leak := true |>
+  | OUpData _ _ | OUpTrl _ | OUpReset _ => g
   | ORes d => let r := g_res g + d in g <| g_res := r |> <| g_res_min := Z.min (g_res_min g) r |>
   | OGauge d => g <| g_gauge := g_gauge g + d |> <| g_clean := sat_succ 2 (g_clean g) |>
   | OFilterRecv _ _ v => g <| g_denied := g_denied g || is_deny v |> <| g_term := g_term g || match v with VTerm => true | _ => false end |>
